@@ -1,6 +1,7 @@
 //! C17 – "Closing or losing a connection at any moment ends it cleanly and visibly".
 //!
-//! Scenario = transport mode × start-up phase × terminating event(s).  One scenario per
+//! Scenario = transport mode × start-up phase × terminating event(s) × media shape ×
+//! configuration variant.  One scenario per
 //! SUBPROCESS: the parent re-executes its own binary with `C17 --child <scenario-json>`; the
 //! child owns three tokio runtimes (harness, side A, side B), drives two real
 //! `rustrtc::PeerConnection`s joined by a harness-owned UDP forwarder ("NatWire"), freezes the
@@ -12,7 +13,39 @@
 //! side is still alive and healthy (a dropped-but-leaked connection is otherwise garbage
 //! collected by its own ICE timeout as soon as the peer goes away, which would hide the leak).
 //! Sockets are attributed to a side by inode identity (`/proc/self/fd`) at the step that
-//! created them.
+//! created them (a side that is still alone in the process when the event lands – phase
+//! `gathering` – by exclusion: every socket that was not there before it was created, whenever
+//! it appears).  The process baseline is taken before the first connection exists, so what
+//! rustrtc keeps in process-wide registries (shared mux port, shared TCP listener) is never part
+//! of it.
+//!
+//! Media shape (`"media"`, WebRTC mode; each phase owns different tasks depending on it):
+//!  * `dc` (default): one data channel; a video track on top in `media_flowing`;
+//!  * `audio+dc`: an audio track from the start (m=audio + m=application);
+//!  * `audio`: an audio track and NO m=application section – no SCTP transport at all.  Phases
+//!    that need a channel do not exist (`AUDIO_PHASES`; `connected` = ICE + DTLS up), neither do
+//!    SCTP events; the channel clauses of the oracle have nothing to apply to; everything else
+//!    (terminal state + reason, calls return, tasks and sockets released, no panic) stays.
+//! Configuration variant (`"cfg"`): resources the plain configuration never creates, so that the
+//! census can see them (each variant is checked to have had its effect on what the side gathered
+//! – otherwise harness error):
+//!  * `mux`: `ice_udp_mux` on both sides, one harness-chosen port each (`Ports`): the port's
+//!    socket and demux task belong to a process-wide registry and are released by reference
+//!    count – the subject is the only connection on its port, so its close / drop takes the count
+//!    to zero and its own census must come back empty;
+//!  * `mux2`: a second, complete connection (the "companion", own runtime, joined directly) is
+//!    registered on the subject's port before the subject exists.  The subject's end must NOT
+//!    release the port: after a pause of two polls of the demux loop's shutdown flag the shared
+//!    socket is still open and one data-channel message each way still gets through on the
+//!    companion; when the harness finally closes the companion (the LAST one) the final census
+//!    must find port, demux task and everything else gone;
+//!  * `tcp` / `tcprange` / `tcp1`: ICE-TCP passive listeners – ephemeral, first free port of a
+//!    three-port `tcp_port_range`, single-port range (= process-wide shared listener + accept
+//!    task, reference counted like the mux port).  TCP candidates are not signalled (the
+//!    forwarder is UDP only); the listeners and their accept loops exist and are counted;
+//!  * `latch`: `enable_latching` (WebRTC and Rtp mode);
+//!  * `rtcpsplit`: Rtp mode with `RtcpMuxPolicy::Negotiate` – a second (RTCP) socket.
+//! Violation keys carry `,cfg=…` / `,media=…` only for non-default values.
 //!
 //! Beyond the single events and racing pairs:
 //!  * `flapN` (side "N", WebRTC mode): the forwarder blackholes the path until BOTH sides report
@@ -31,6 +64,11 @@
 //!    given its terminal answer – on closed sides and on sides whose connection ended by
 //!    itself for good (Closed | Failed): recv() is drained (≤ 64 calls) until `None` and then
 //!    called once more.
+//!
+//! None of the variants adds a demand: "tasks and sockets owned by the connection are released
+//! within bounded time" is judged on whatever the configuration made the connection own; the
+//! companion clause only says that a close releases nothing that is NOT the connection's own (a
+//! close that takes another, live connection down is not "harmless").
 //!
 //! ORACLE (per side X, after the last event; the statement is the law):
 //!  * X closed / dropped / stopped ICE itself, or X's peer did so, or the path died, or the
@@ -56,7 +94,7 @@
 use crate::common::*;
 use bytes::Bytes;
 use parking_lot::Mutex;
-use rustrtc::media::frame::{MediaSample, VideoFrame};
+use rustrtc::media::frame::{AudioFrame, MediaSample, VideoFrame};
 use rustrtc::media::track::SampleStreamSource;
 use rustrtc::transports::sctp::{DataChannel, DataChannelConfig};
 use rustrtc::{
@@ -110,7 +148,89 @@ fn flap_n(sc: &Value) -> u64 {
         .unwrap_or(0)
 }
 
-fn rtc_config(mode: &str, phase: &str, flaps: u64) -> RtcConfiguration {
+/// Configuration variant of a scenario (`"cfg"`, absent = "plain") and its media shape
+/// (`"media"`, absent = "dc"); see the header comment.
+fn cfg_of(sc: &Value) -> &str {
+    sc["cfg"].as_str().unwrap_or("plain")
+}
+fn media_of(sc: &Value) -> &str {
+    sc["media"].as_str().unwrap_or("dc")
+}
+/// suffix that distinguishes a non-default variant in labels (`/mux/audio`) …
+fn variant_label(sc: &Value) -> String {
+    let mut s = String::new();
+    if cfg_of(sc) != "plain" {
+        s.push_str(&format!("/{}", cfg_of(sc)));
+    }
+    if media_of(sc) != "dc" {
+        s.push_str(&format!("/{}", media_of(sc)));
+    }
+    s
+}
+/// … and in violation keys (`,cfg=mux,media=audio`); empty for the default shape, so the keys
+/// of the plain scenarios are what they always were
+fn variant_key(sc: &Value) -> String {
+    let mut s = String::new();
+    if cfg_of(sc) != "plain" {
+        s.push_str(&format!(",cfg={}", cfg_of(sc)));
+    }
+    if media_of(sc) != "dc" {
+        s.push_str(&format!(",media={}", media_of(sc)));
+    }
+    s
+}
+
+/// rustrtc: the demux loop of a shared `ice_udp_mux` port polls its shutdown flag at this
+/// interval (hard-coded, src/transports/ice/shared_udp.rs `shutdown_signal`)
+const SHARED_UDP_SHUTDOWN_POLL_MS: u64 = 250;
+
+/// Ports the harness hands to rustrtc for one child process.  All of them come from one block
+/// of ten consecutive ports below the ephemeral range (so that no `bind(…:0)` of anybody lands
+/// on them), picked from the child's pid (children run in parallel) and probed for being free
+/// on UDP and TCP right before use.
+#[derive(Clone, Copy, Debug, Default)]
+struct Ports {
+    block: u16,
+}
+impl Ports {
+    fn pick() -> Result<Ports, String> {
+        let pid = std::process::id() as u64;
+        for k in 0..64u64 {
+            let block = 21_000 + (((pid + 37 * k) % 1000) * 10) as u16;
+            let free = (block..block + 10).all(|p| {
+                std::net::UdpSocket::bind(("127.0.0.1", p)).is_ok() && std::net::TcpListener::bind(("127.0.0.1", p)).is_ok()
+            });
+            if free {
+                return Ok(Ports { block });
+            }
+        }
+        Err("no free block of ports for the mux / tcp variants".into())
+    }
+    fn idx(side: &str) -> u16 {
+        if side == "B" { 1 } else { 0 }
+    }
+    /// `ice_udp_mux_port` of a side (the two sides live in one process: two ports)
+    fn mux(&self, side: &str) -> u16 {
+        self.block + Self::idx(side)
+    }
+    /// `tcp_port_range` (three ports) of a side
+    fn tcp_range(&self, side: &str) -> (u16, u16) {
+        let s = self.block + 2 + 3 * Self::idx(side);
+        (s, s + 2)
+    }
+    /// single-port `tcp_port_range` (start == end: process-wide shared listener) of a side
+    fn tcp1(&self, side: &str) -> u16 {
+        self.block + 8 + Self::idx(side)
+    }
+}
+
+/// `side`: "A" | "B" = the two sides of the scenario; "C" = the companion connection of a `mux2`
+/// scenario that shares the subject's mux port (`share` = the side it shares with); "D" = the
+/// companion's peer (always plain).
+fn rtc_config(sc: &Value, side: &str, share: &str, ports: &Ports) -> RtcConfiguration {
+    let mode = sc["mode"].as_str().unwrap_or("webrtc");
+    let phase = sc["phase"].as_str().unwrap_or("");
+    let flaps = if side == "A" || side == "B" { flap_n(sc) } else { 0 };
     let mut c = RtcConfiguration::default();
     c.transport_mode = match mode {
         "srtp" => TransportMode::Srtp,
@@ -130,7 +250,7 @@ fn rtc_config(mode: &str, phase: &str, flaps: u64) -> RtcConfiguration {
     c.sctp_heartbeat_interval = Duration::from_millis(500);
     c.sctp_max_association_retransmits = 4;
     c.sctp_max_heartbeat_failures = 2;
-    if phase == "sender_blocked" {
+    if phase == "sender_blocked" && (side == "A" || side == "B") {
         c.sctp_max_buffered_amount = 16 * 1024;
     }
     if flaps > 0 {
@@ -141,6 +261,40 @@ fn rtc_config(mode: &str, phase: &str, flaps: u64) -> RtcConfiguration {
         // test is the ICE-disconnect handling of the connected-state loop
         c.sctp_max_association_retransmits = 200;
         c.sctp_max_heartbeat_failures = 200;
+    }
+    // ---- configuration variants: resources the plain configuration never creates
+    match (cfg_of(sc), side) {
+        (_, "D") => {}
+        ("mux2", "C") => {
+            c.ice_udp_mux = true;
+            c.ice_udp_mux_port = Some(ports.mux(share));
+        }
+        ("mux" | "mux2", _) => {
+            // one process-wide UDP socket + demux task per port, shared by registration
+            c.ice_udp_mux = true;
+            c.ice_udp_mux_port = Some(ports.mux(side));
+        }
+        ("tcp", _) => {
+            // ICE-TCP: a passive listener (ephemeral port) + its accept loop per connection
+            c.ice_tcp_policy = rustrtc::IceTcpPolicy::Enabled;
+        }
+        ("tcprange", _) => {
+            let (s, e) = ports.tcp_range(side);
+            c.ice_tcp_policy = rustrtc::IceTcpPolicy::PassiveOnly;
+            c.tcp_port_range_start = Some(s);
+            c.tcp_port_range_end = Some(e);
+        }
+        ("tcp1", _) => {
+            // start == end: process-wide shared listener + accept task, shared by registration
+            c.tcp_port_range_start = Some(ports.tcp1(side));
+            c.tcp_port_range_end = Some(ports.tcp1(side));
+        }
+        ("latch", _) => c.enable_latching = true,
+        ("rtcpsplit", _) => {
+            // Rtp mode without rtcp-mux: a second (RTCP) socket per connection
+            c.rtcp_mux_policy = rustrtc::RtcpMuxPolicy::Negotiate;
+        }
+        _ => {}
     }
     c
 }
@@ -205,6 +359,38 @@ fn mk(mode: &str, phase: &str, events: &[(&str, &str)], channel: &str) -> Value 
     let evs: Vec<Value> = events.iter().map(|(e, s)| json!({"ev": e, "side": s})).collect();
     json!({"mode": mode, "phase": phase, "events": evs, "gap_ms": 100, "channel": channel})
 }
+/// a scenario in a configuration variant / media shape (the default values are not written, so
+/// the plain scenarios are byte-identical to what they always were)
+fn mkv(mode: &str, phase: &str, events: &[(&str, &str)], channel: &str, cfg: &str, media: &str) -> Value {
+    let mut v = mk(mode, phase, events, if media == "audio" { "none" } else { channel });
+    if cfg != "plain" {
+        v["cfg"] = json!(cfg);
+    }
+    if media != "dc" {
+        v["media"] = json!(media);
+    }
+    v
+}
+
+/// Phases of a WebRTC connection WITHOUT an m=application section (media = "audio"): everything
+/// that does not need a data channel.  `connected` = ICE + DTLS up (the statement's "DTLS
+/// connected"), no media sent yet.
+const AUDIO_PHASES: [&str; 8] =
+    ["created", "offer_made", "gathering", "checking", "dtls_handshaking", "connected", "media_flowing", "renegotiating"];
+/// the six of them the quick tier always runs with close and drop
+const AUDIO_QUICK_PHASES: [&str; 6] = ["created", "offer_made", "gathering", "checking", "dtls_handshaking", "media_flowing"];
+/// events of a connection without SCTP (no ABORT / SHUTDOWN, no blocked sender)
+fn audio_events(phase: &str) -> Vec<Ev> {
+    if !phase_has_peer(phase) {
+        return vec![("close", "A"), ("drop", "A"), ("ice_stop", "A")];
+    }
+    vec![
+        ("close", "A"), ("close", "B"), ("drop", "A"), ("drop", "B"),
+        ("ice_stop", "A"), ("ice_stop", "B"), ("socket_loss", "N"), ("blackhole", "N"),
+    ]
+}
+/// phases in which a connection has gathered, i.e. holds its registration on a shared mux port
+const MUX2_PHASES: [&str; 5] = ["offer_made", "checking", "sctp_connecting", "channels_open", "media_flowing"];
 
 /// all single-event scenarios that make sense for (mode, phase)
 fn single_events(mode: &str, phase: &str) -> Vec<(&'static str, &'static str)> {
@@ -296,6 +482,77 @@ fn enumerate(tier: Tier, seed: u64) -> Vec<Value> {
             let ph = *frng.pick(&FLAP_PHASES[1..]);
             let ev = if frng.bool() { "flap1" } else { "flap2" };
             out.push(mk("webrtc", ph, &[(ev, "N")], chan(&mut frng)));
+
+            // ---- media shapes and configuration variants (own generator: the scenarios above
+            // are what they were before these dimensions existed)
+            let mut vr = Rng::new(seed).fork(1717);
+            let side_of = |r: &mut Rng, ph: &str| if !phase_has_peer(ph) || r.bool() { "A" } else { "B" };
+            // no m=application: the six phases × {close, drop}, subject side rotated by the seed
+            for ph in AUDIO_QUICK_PHASES {
+                for ev in ["close", "drop"] {
+                    let side = side_of(&mut vr, ph);
+                    out.push(mkv("webrtc", ph, &[(ev, side)], "none", "plain", "audio"));
+                }
+            }
+            // … two of its other (phase, event) pairs, and three of audio + data channel
+            let mut pool = vec![];
+            for ph in AUDIO_PHASES {
+                for (ev, side) in audio_events(ph) {
+                    let covered = AUDIO_QUICK_PHASES.contains(&ph) && (ev == "close" || ev == "drop");
+                    if !covered && ph != "dtls_handshaking" {
+                        pool.push((ph, ev, side));
+                    }
+                }
+            }
+            vr.shuffle(&mut pool);
+            for (ph, ev, side) in pool.into_iter().take(2) {
+                out.push(mkv("webrtc", ph, &[(ev, side)], "none", "plain", "audio"));
+            }
+            let mut pool = vec![];
+            for ph in WEBRTC_PHASES {
+                for (ev, side) in single_events("webrtc", ph) {
+                    if ev != "shutdown" && ph != "dtls_handshaking" {
+                        pool.push((ph, ev, side));
+                    }
+                }
+            }
+            vr.shuffle(&mut pool);
+            for (ph, ev, side) in pool.iter().take(3) {
+                out.push(mkv("webrtc", ph, &[(*ev, *side)], chan(&mut vr), "plain", "audio+dc"));
+            }
+            // shared UDP mux port, one connection per port: the cheapest case always (the close
+            // takes the port's reference count to zero), four more by the seed – two of them
+            // close / drop (the subject's own census), two any event
+            out.push(mkv("webrtc", "offer_made", &[("close", "A")], chan(&mut vr), "mux", "dc"));
+            vr.shuffle(&mut pool);
+            let gathered = |ph: &str| ph != "created";
+            let own: Vec<_> = pool.iter().filter(|x| gathered(x.0) && (x.1 == "close" || x.1 == "drop")).take(2).cloned().collect();
+            let any: Vec<_> = pool.iter().filter(|x| gathered(x.0) && !own.contains(x)).take(2).cloned().collect();
+            for (ph, ev, side) in own.into_iter().chain(any) {
+                let media = if ph == "sender_blocked" || vr.chance(2, 3) { "dc" } else { "audio+dc" };
+                out.push(mkv("webrtc", ph, &[(ev, side)], chan(&mut vr), "mux", media));
+            }
+            // two connections on one mux port: the first to go must leave the port alone
+            {
+                let ph = *vr.pick(&MUX2_PHASES);
+                let ev = if vr.bool() { "close" } else { "drop" };
+                let side = side_of(&mut vr, ph);
+                out.push(mkv("webrtc", ph, &[(ev, side)], chan(&mut vr), "mux2", "dc"));
+            }
+            // the other resources the plain configuration never creates: one scenario each
+            for cfg in ["tcp", "tcprange", "tcp1", "latch"] {
+                let ph = *vr.pick(&["offer_made", "gathering", "checking", "sctp_connecting", "channels_open", "media_flowing"]);
+                let ev = if vr.bool() { "close" } else { "drop" };
+                let side = side_of(&mut vr, ph);
+                out.push(mkv("webrtc", ph, &[(ev, side)], chan(&mut vr), cfg, "dc"));
+            }
+            // (Rtp mode: only there does rustrtc bind a separate RTCP socket / latch on RTP)
+            for cfg in ["rtcpsplit", "latch"] {
+                let ph = *vr.pick(&DIRECT_PHASES[1..]);
+                let evs = single_events("rtp", ph);
+                let (ev, side) = *vr.pick(&evs);
+                out.push(mkv("rtp", ph, &[(ev, side)], "none", cfg, "dc"));
+            }
         }
         Tier::Thorough => {
             for ph in WEBRTC_PHASES {
@@ -341,6 +598,66 @@ fn enumerate(tier: Tier, seed: u64) -> Vec<Value> {
             // a flapped (possibly stuck) connection must still be closable / droppable
             for second in [("close", "A"), ("close", "B"), ("drop", "B"), ("ice_stop", "A")] {
                 out.push(mk("webrtc", "channels_open", &[("flap1", "N"), second], chan(&mut rng)));
+            }
+            // ---- media shapes and configuration variants: everything
+            let mut vr = Rng::new(seed).fork(1717);
+            for ph in AUDIO_PHASES {
+                for (ev, side) in audio_events(ph) {
+                    out.push(mkv("webrtc", ph, &[(ev, side)], "none", "plain", "audio"));
+                }
+            }
+            for ph in ["checking", "dtls_handshaking", "media_flowing"] {
+                for p in [(("close", "A"), ("close", "B")), (("close", "B"), ("drop", "A")), (("close", "A"), ("close", "A")), (("ice_stop", "A"), ("close", "A"))] {
+                    out.push(mkv("webrtc", ph, &[p.0, p.1], "none", "plain", "audio"));
+                }
+            }
+            for ph in WEBRTC_PHASES {
+                for (ev, side) in single_events("webrtc", ph) {
+                    if ev == "close" || ev == "drop" || ev == "ice_stop" {
+                        out.push(mkv("webrtc", ph, &[(ev, side)], chan(&mut vr), "plain", "audio+dc"));
+                    }
+                }
+            }
+            for ph in WEBRTC_PHASES {
+                for (ev, side) in single_events("webrtc", ph) {
+                    out.push(mkv("webrtc", ph, &[(ev, side)], chan(&mut vr), "mux", "dc"));
+                }
+            }
+            for ph in AUDIO_PHASES {
+                for (ev, side) in audio_events(ph) {
+                    if ev == "close" || ev == "drop" {
+                        out.push(mkv("webrtc", ph, &[(ev, side)], "none", "mux", "audio"));
+                    }
+                }
+            }
+            for ev in ["close", "drop", "ice_stop"] {
+                out.push(mkv("webrtc", "new", &[(ev, "A")], chan(&mut vr), "mux", "dc"));
+            }
+            for ph in MUX2_PHASES {
+                for (ev, side) in [("close", "A"), ("close", "B"), ("drop", "A"), ("drop", "B"), ("ice_stop", "A")] {
+                    if phase_has_peer(ph) || side == "A" {
+                        out.push(mkv("webrtc", ph, &[(ev, side)], chan(&mut vr), "mux2", "dc"));
+                    }
+                }
+            }
+            for p in [(("close", "A"), ("close", "B")), (("drop", "A"), ("drop", "B")), (("close", "A"), ("close", "A")), (("ice_stop", "A"), ("close", "A"))] {
+                out.push(mkv("webrtc", "channels_open", &[p.0, p.1], chan(&mut vr), "mux", "dc"));
+            }
+            for cfg in ["tcp", "tcprange", "tcp1", "latch"] {
+                for ph in ["offer_made", "gathering", "checking", "dtls_handshaking", "sctp_connecting", "channels_open", "media_flowing"] {
+                    for (ev, side) in [("close", "A"), ("close", "B"), ("drop", "A"), ("drop", "B")] {
+                        if phase_has_peer(ph) || side == "A" {
+                            out.push(mkv("webrtc", ph, &[(ev, side)], chan(&mut vr), cfg, "dc"));
+                        }
+                    }
+                }
+            }
+            for cfg in ["rtcpsplit", "latch"] {
+                for ph in DIRECT_PHASES {
+                    for (ev, side) in single_events("rtp", ph) {
+                        out.push(mkv("rtp", ph, &[(ev, side)], "none", cfg, "dc"));
+                    }
+                }
             }
         }
     }
@@ -410,6 +727,13 @@ pub fn run(args: &Args) -> i32 {
             None => all,
         }
     };
+    if args.has_flag("--list") {
+        // the scenarios of this tier / seed, one label per line (nothing is run)
+        for sc in &scenarios {
+            println!("{}", scenario_label(sc));
+        }
+        return 0;
+    }
     let replay_mode = args.replay.is_some();
     let total = scenarios.len();
     // slow (30 s DTLS deadline) scenarios first so that they overlap with everything else
@@ -539,6 +863,8 @@ fn digest(report: &mut Report, sc: &Value, r: &Value) {
     report.count("scenarios_phase_reached", 1);
     report.seen("phase", sc["phase"].as_str().unwrap_or("?"));
     report.seen("mode", sc["mode"].as_str().unwrap_or("?"));
+    report.seen("cfg", cfg_of(sc));
+    report.seen("media", media_of(sc));
     if let Some(evs) = sc["events"].as_array() {
         for e in evs {
             report.seen("event", format!("{}@{}", e["ev"].as_str().unwrap_or("?"), e["side"].as_str().unwrap_or("?")));
@@ -598,7 +924,7 @@ fn event_label(sc: &Value) -> String {
         .unwrap_or_default()
 }
 fn scenario_label(sc: &Value) -> String {
-    format!("{}/{}/{}", sc["mode"].as_str().unwrap_or("?"), sc["phase"].as_str().unwrap_or("?"), event_label(sc))
+    format!("{}/{}/{}{}", sc["mode"].as_str().unwrap_or("?"), sc["phase"].as_str().unwrap_or("?"), event_label(sc), variant_label(sc))
 }
 
 // ------------------------------------------------------------------ child: plumbing
@@ -640,6 +966,27 @@ fn socket_inodes() -> BTreeSet<u64> {
     s
 }
 
+/// inodes of the UDP sockets OF THIS PROCESS that are bound to `port` (`/proc/net/udp` lists the
+/// whole network namespace; the intersection with our own descriptors makes it ours)
+fn own_udp_sockets_on_port(port: u16) -> BTreeSet<u64> {
+    let mut s = BTreeSet::new();
+    if let Ok(text) = std::fs::read_to_string("/proc/net/udp") {
+        for line in text.lines().skip(1) {
+            let f: Vec<&str> = line.split_whitespace().collect();
+            // sl local_address rem_address st tx:rx tr:when retrnsmt uid timeout inode …
+            if f.len() > 9 {
+                let p = f[1].rsplit(':').next().and_then(|h| u16::from_str_radix(h, 16).ok());
+                if p == Some(port) {
+                    if let Ok(i) = f[9].parse::<u64>() {
+                        s.insert(i);
+                    }
+                }
+            }
+        }
+    }
+    s.intersection(&socket_inodes()).cloned().collect()
+}
+
 struct DcWatch {
     dc: Arc<DataChannel>,
     log: Arc<Mutex<Vec<(u64, String)>>>,
@@ -664,6 +1011,9 @@ struct Side {
     dcs: Vec<DcWatch>,
     dc_rx: Option<tokio::sync::mpsc::UnboundedReceiver<Arc<DataChannel>>>,
     socks: BTreeSet<u64>,
+    /// a side that is alone in the process while it gathers (no peer yet): every socket that is
+    /// not in this snapshot is its own, whenever it was created
+    solo_base: Option<BTreeSet<u64>>,
     pending: Vec<Pending>,
     local: Option<&'static str>, // what this side did to itself: close | drop | ice_stop
     silenced: Option<String>,    // what was done to it from outside
@@ -695,7 +1045,10 @@ impl Side {
         self.rt.metrics().num_alive_tasks().saturating_sub(self.live.load(Ordering::SeqCst))
     }
     fn socks_open(&self, now: &BTreeSet<u64>) -> usize {
-        self.socks.intersection(now).count()
+        match &self.solo_base {
+            Some(b) => now.difference(b).count(),
+            None => self.socks.intersection(now).count(),
+        }
     }
     fn state(&self) -> PeerConnectionState {
         *self.state_rx.borrow()
@@ -778,7 +1131,18 @@ async fn new_side(
     cfg: RtcConfiguration,
     immediate: Option<String>,
 ) -> Result<Side, String> {
-    let live = Arc::new(AtomicUsize::new(0));
+    new_side_on(name, rt, Arc::new(AtomicUsize::new(0)), clock, cfg, immediate).await
+}
+
+/// `live`: the counter of harness-owned tasks on `rt` (shared by the sides that share a runtime)
+async fn new_side_on(
+    name: &'static str,
+    rt: Handle,
+    live: Arc<AtomicUsize>,
+    clock: &Clock,
+    cfg: RtcConfiguration,
+    immediate: Option<String>,
+) -> Result<Side, String> {
     // `immediate` (phase "new"): the event is applied in the same poll as the constructor, so
     // none of the tasks the constructor spawned has run yet when it lands
     let (pc, state_rx, reason_rx, ice_rx, sig_rx) = spawn_on(&rt, &live, async move {
@@ -820,6 +1184,7 @@ async fn new_side(
         dcs: vec![],
         dc_rx: None,
         socks: BTreeSet::new(),
+        solo_base: None,
         pending: vec![],
         local: None,
         silenced: None,
@@ -988,6 +1353,11 @@ fn rewrite_sdp(desc: &SessionDescription, to: SocketAddr) -> Result<(SessionDesc
     for line in text.lines() {
         if let Some(rest) = line.strip_prefix("a=candidate:") {
             let mut f: Vec<String> = rest.split_whitespace().map(|s| s.to_string()).collect();
+            if f.len() >= 6 && !f[2].eq_ignore_ascii_case("udp") {
+                // ICE-TCP candidates (cfg tcp / tcprange / tcp1) are not signalled: the
+                // forwarder is UDP only.  Their listeners exist and are part of the census.
+                continue;
+            }
             if f.len() >= 6 {
                 if orig.is_none() {
                     if let (Ok(ip), Ok(p)) = (f[4].parse::<std::net::IpAddr>(), f[5].parse::<u16>()) {
@@ -1041,16 +1411,16 @@ fn child_main(arg: &str) -> i32 {
             .enable_all()
             .build()
     };
-    let (rt_h, rt_a, rt_b) = match (mk_rt("harness"), mk_rt("sideA"), mk_rt("sideB")) {
-        (Ok(h), Ok(a), Ok(b)) => (h, a, b),
+    let (rt_h, rt_a, rt_b, rt_c) = match (mk_rt("harness"), mk_rt("sideA"), mk_rt("sideB"), mk_rt("companion")) {
+        (Ok(h), Ok(a), Ok(b), Ok(c)) => (h, a, b, c),
         _ => {
             println!("{RESULT_TAG}{}", json!({"status": "harness_error", "reason": "cannot build runtimes"}));
             return 0;
         }
     };
-    let (ha, hb, hh) = (rt_a.handle().clone(), rt_b.handle().clone(), rt_h.handle().clone());
+    let (ha, hb, hc, hh) = (rt_a.handle().clone(), rt_b.handle().clone(), rt_c.handle().clone(), rt_h.handle().clone());
     let res = rt_h.block_on(async move {
-        match scenario(&sc, hh, ha, hb).await {
+        match scenario(&sc, hh, ha, hb, hc).await {
             Ok(v) => v,
             Err(e) => json!({"status": "harness_error", "reason": e}),
         }
@@ -1060,6 +1430,7 @@ fn child_main(arg: &str) -> i32 {
     let _ = std::io::stdout().flush();
     rt_a.shutdown_background();
     rt_b.shutdown_background();
+    rt_c.shutdown_background();
     rt_h.shutdown_background();
     0
 }
@@ -1118,31 +1489,130 @@ async fn answer_with_candidates(s: &Side, offer: SessionDescription, webrtc: boo
 fn video_params() -> RtpCodecParameters {
     RtpCodecParameters { payload_type: 96, name: "VP8".to_string(), clock_rate: 90000, channels: 0 }
 }
+fn audio_params() -> RtpCodecParameters {
+    RtpCodecParameters { payload_type: 111, name: "opus".to_string(), clock_rate: 48000, channels: 2 }
+}
 
-async fn scenario(sc: &Value, rt_h: Handle, rt_a: Handle, rt_b: Handle) -> Result<Value, String> {
+/// does the local description of `s` carry a host candidate of the given transport (and port)?
+fn has_local_candidate(desc: &SessionDescription, transport: &str, port: Option<u16>) -> bool {
+    desc.to_sdp_string().lines().filter_map(|l| l.strip_prefix("a=candidate:")).any(|rest| {
+        let f: Vec<&str> = rest.split_whitespace().collect();
+        f.len() >= 6 && f[2].eq_ignore_ascii_case(transport) && port.map(|p| f[5] == p.to_string()).unwrap_or(true)
+    })
+}
+/// the configuration variant must have had its effect on what the side gathered – otherwise the
+/// scenario is not the one it claims to be (harness error, not evidence)
+fn check_cfg_effect(sc: &Value, side: &str, ports: &Ports, desc: &SessionDescription) -> Result<(), String> {
+    let ok = match cfg_of(sc) {
+        "mux" | "mux2" => has_local_candidate(desc, "udp", Some(ports.mux(side))),
+        "tcp" | "tcprange" => has_local_candidate(desc, "tcp", None),
+        "tcp1" => has_local_candidate(desc, "tcp", Some(ports.tcp1(side))),
+        _ => true,
+    };
+    if ok { Ok(()) } else { Err(format!("cfg {}: side {side} did not gather the candidate the variant is about", cfg_of(sc))) }
+}
+
+/// `mux2`: a second, complete connection ("C", peer "D"; both on the companion runtime, joined
+/// directly) that is registered on the subject's mux port BEFORE the subject exists – so the
+/// port's socket and demux task live on the companion runtime and the subject's own census is
+/// what it is without a companion.
+struct Companion {
+    c: Side,
+    d: Side,
+    /// the shared mux socket: the UDP socket of this process that is bound to the mux port
+    mux_port: u16,
+    mux_socks: BTreeSet<u64>,
+}
+impl Companion {
+    fn tasks(&self) -> usize {
+        self.c.tasks() // C and D share runtime and counter
+    }
+    async fn up(sc: &Value, share: &str, ports: &Ports, rt_c: &Handle, rt_h: &Handle, clock: &Clock) -> Result<Companion, String> {
+        let live = Arc::new(AtomicUsize::new(0));
+        let mut c = new_side_on("C", rt_c.clone(), live.clone(), clock, rtc_config(sc, "C", share, ports), None).await?;
+        let mut d = new_side_on("D", rt_c.clone(), live, clock, rtc_config(sc, "D", share, ports), None).await?;
+        for s in [&mut c, &mut d] {
+            let pc = s.pc.clone().ok_or("no handle")?;
+            let dc = s
+                .run(async move { pc.create_data_channel("c0", Some(dc_config(true))) })
+                .await?
+                .map_err(|e| format!("companion create_data_channel: {e}"))?;
+            s.watch_dc(rt_h, clock, dc);
+        }
+        let offer = offer_with_candidates(&c).await?;
+        let mux_port = ports.mux(share);
+        let mux_socks = own_udp_sockets_on_port(mux_port);
+        if !has_local_candidate(&offer, "udp", Some(mux_port)) || mux_socks.len() != 1 {
+            return Err(format!("companion did not gather on the mux port ({} socket(s) of ours on it)", mux_socks.len()));
+        }
+        let answer = answer_with_candidates(&d, offer, true).await?;
+        let pc = c.pc.clone().ok_or("no handle")?;
+        c.run(async move { pc.set_remote_description(answer).await }).await?.map_err(|e| format!("companion set_remote(answer): {e}"))?;
+        let mut cp = Companion { c, d, mux_port, mux_socks };
+        if !cp.exchange(25_000).await?.0 {
+            return Err("companion connection did not come up".into());
+        }
+        Ok(cp)
+    }
+    /// one message each way; returns (both arrived, ms it took)
+    async fn exchange(&mut self, wait_ms: u64) -> Result<(bool, u64), String> {
+        let t0 = Instant::now();
+        let (c, d) = (&self.c, &self.d);
+        if !wait_until(wait_ms, || c.dc_count(0, "Open") >= 1 && d.dc_count(0, "Open") >= 1).await {
+            return Ok((false, t0.elapsed().as_millis() as u64));
+        }
+        let (nc, nd) = (c.dc_count(0, "Message"), d.dc_count(0, "Message"));
+        let (idc, idd) = (c.dcs[0].dc.id, d.dcs[0].dc.id);
+        let (pc, pd) = (c.pc.clone().ok_or("no handle")?, d.pc.clone().ok_or("no handle")?);
+        // (the calls themselves are not judged here; a failed send shows as a missing message)
+        let _ = c.run(async move { pc.send_data(idc, b"companion C").await.is_ok() }).await?;
+        let _ = d.run(async move { pd.send_data(idd, b"companion D").await.is_ok() }).await?;
+        let ok = wait_until(wait_ms, || c.dc_count(0, "Message") > nc && d.dc_count(0, "Message") > nd).await;
+        Ok((ok, t0.elapsed().as_millis() as u64))
+    }
+}
+
+async fn scenario(sc: &Value, rt_h: Handle, rt_a: Handle, rt_b: Handle, rt_c: Handle) -> Result<Value, String> {
     let clock = Clock(Instant::now());
     let mode = sc["mode"].as_str().unwrap_or("webrtc").to_string();
     let phase = sc["phase"].as_str().unwrap_or("created").to_string();
     let negotiated = sc["channel"].as_str() == Some("negotiated");
     let webrtc = mode == "webrtc";
-    let media = phase == "media_flowing" || !webrtc;
+    let cfgv = cfg_of(sc).to_string();
+    let mediav = media_of(sc).to_string();
+    // media shape: does the connection have a data channel (m=application), which kind of track
+    // (if any) does it carry, and are frames being sent when the event lands
+    let has_dc = webrtc && mediav != "audio";
+    let audio = mediav != "dc";
+    let media = phase == "media_flowing" || !webrtc || audio;
+    let send_frames = phase == "media_flowing" || !webrtc;
+    let vkey = variant_key(sc);
     let bound = bound_ms(sc);
     let flaps = flap_n(sc);
     let panics0 = panic_count();
     let mut seen: Vec<(String, String)> = vec![];
     let mut obs = serde_json::Map::new();
+    let first_ev_side = sc["events"][0]["side"].as_str().unwrap_or("A").to_string();
+    let ports = if cfgv == "plain" || cfgv == "latch" || cfgv == "rtcpsplit" { Ports::default() } else { Ports::pick()? };
 
     // the forwarder exists before the baseline so that its sockets are part of it
     let mut nw = if webrtc { Some(NatWire::new(&rt_h).await?) } else { None };
+    // the baseline is taken before the first connection exists: process-wide registries (shared
+    // mux port, shared TCP listener) are empty here
     let base = socket_inodes();
+
+    // ---------------- mux2: the companion that shares the subject's mux port
+    let share = if first_ev_side == "B" { "B" } else { "A" };
+    let mut comp = if cfgv == "mux2" { Some(Companion::up(sc, share, &ports, &rt_c, &rt_h, &clock).await?) } else { None };
+    let pre_a = socket_inodes();
 
     // ---------------- side A (offerer)
     let immediate = if phase == "new" { sc["events"][0]["ev"].as_str().map(|s| s.to_string()) } else { None };
-    let mut a = new_side("A", rt_a.clone(), &clock, rtc_config(&mode, &phase, flaps), immediate).await?;
+    let mut a = new_side("A", rt_a.clone(), &clock, rtc_config(sc, "A", share, &ports), immediate).await?;
     let mut b: Option<Side> = None;
     if phase != "new" {
         let pc = a.pc.clone().ok_or("no handle")?;
-        if webrtc {
+        if has_dc {
             let dc = a
                 .run(async move { pc.create_data_channel("c0", Some(dc_config(negotiated))) })
                 .await?
@@ -1151,9 +1621,11 @@ async fn scenario(sc: &Value, rt_h: Handle, rt_a: Handle, rt_b: Handle) -> Resul
         }
         if media {
             let pc = a.pc.clone().ok_or("no handle")?;
-            let (source, track, _fb) = rustrtc::media::track::sample_track(rustrtc::media::frame::MediaKind::Video, 100);
+            let kind = if audio { rustrtc::media::frame::MediaKind::Audio } else { rustrtc::media::frame::MediaKind::Video };
+            let (source, track, _fb) = rustrtc::media::track::sample_track(kind, 100);
             a.source = Some(Arc::new(source));
-            a.run(async move { pc.add_track(track, video_params()).map(|_| ()) })
+            let params = if audio { audio_params() } else { video_params() };
+            a.run(async move { pc.add_track(track, params).map(|_| ()) })
                 .await?
                 .map_err(|e| format!("add_track: {e}"))?;
         }
@@ -1173,15 +1645,18 @@ async fn scenario(sc: &Value, rt_h: Handle, rt_a: Handle, rt_b: Handle) -> Resul
             "done".to_string()
         });
         reached = true; // the event lands right behind the start of gathering
+        // sockets are still being created when the event lands: attribute by exclusion
+        a.solo_base = Some(pre_a.clone());
     } else if phase != "created" && phase != "new" {
         let offer = offer_with_candidates(&a).await?;
-        a.socks = socket_inodes().difference(&base).cloned().collect();
+        a.socks = socket_inodes().difference(&pre_a).cloned().collect();
+        check_cfg_effect(sc, "A", &ports, &offer)?;
         if phase == "offer_made" {
             reached = *a.sig_rx.borrow() == SignalingState::HaveLocalOffer;
         } else {
             // ---------------- side B (answerer)
-            let mut bs = new_side("B", rt_b.clone(), &clock, rtc_config(&mode, &phase, flaps), None).await?;
-            if webrtc && negotiated {
+            let mut bs = new_side("B", rt_b.clone(), &clock, rtc_config(sc, "B", share, &ports), None).await?;
+            if has_dc && negotiated {
                 let pc = bs.pc.clone().ok_or("no handle")?;
                 let dc = bs
                     .run(async move { pc.create_data_channel("c0", Some(dc_config(true))) })
@@ -1192,7 +1667,7 @@ async fn scenario(sc: &Value, rt_h: Handle, rt_a: Handle, rt_b: Handle) -> Resul
             if media {
                 let pc = bs.pc.clone().ok_or("no handle")?;
                 bs.run(async move {
-                    pc.add_transceiver(MediaKind::Video, TransceiverDirection::RecvOnly);
+                    pc.add_transceiver(if audio { MediaKind::Audio } else { MediaKind::Video }, TransceiverDirection::RecvOnly);
                 })
                 .await?;
             }
@@ -1213,6 +1688,7 @@ async fn scenario(sc: &Value, rt_h: Handle, rt_a: Handle, rt_b: Handle) -> Resul
             let answer = answer_with_candidates(&bs, offer_for_b, webrtc).await?;
             bs.had_remote = true;
             bs.socks = socket_inodes().difference(&before_b).cloned().collect();
+            check_cfg_effect(sc, "B", &ports, &answer)?;
             let before_a2 = socket_inodes();
             let (answer_for_a, b_cand) = match &nw {
                 Some(nw) => rewrite_sdp(&answer, nw.fa_addr)?,
@@ -1245,19 +1721,28 @@ async fn scenario(sc: &Value, rt_h: Handle, rt_a: Handle, rt_b: Handle) -> Resul
                     }
                 });
             }
-            if media {
+            if media && send_frames {
                 let (src, stop, cnt) = (a.source.clone(), stop_media.clone(), frames_sent.clone());
                 media_task = Some(rt_h.spawn(async move {
                     let mut seq: u32 = 0;
                     while !stop.load(Ordering::SeqCst) {
                         if let Some(s) = &src {
-                            let f = VideoFrame {
-                                rtp_timestamp: seq.wrapping_mul(3000),
-                                data: Bytes::from(vec![seq as u8; 200]),
-                                is_last_packet: true,
-                                ..Default::default()
+                            let sample = if audio {
+                                MediaSample::Audio(AudioFrame {
+                                    rtp_timestamp: seq.wrapping_mul(960),
+                                    clock_rate: 48000,
+                                    data: Bytes::from(vec![seq as u8; 80]),
+                                    ..Default::default()
+                                })
+                            } else {
+                                MediaSample::Video(VideoFrame {
+                                    rtp_timestamp: seq.wrapping_mul(3000),
+                                    data: Bytes::from(vec![seq as u8; 200]),
+                                    is_last_packet: true,
+                                    ..Default::default()
+                                })
                             };
-                            if s.send(MediaSample::Video(f)).is_ok() {
+                            if s.send(sample).is_ok() {
                                 cnt.fetch_add(1, Ordering::SeqCst);
                             }
                         }
@@ -1293,6 +1778,15 @@ async fn scenario(sc: &Value, rt_h: Handle, rt_a: Handle, rt_b: Handle) -> Resul
                     // media_flowing in a direct mode
                     let ok = wait_until(25_000, || connected(&a) && connected(&bs)).await;
                     ok && wait_until(10_000, || frames_sent.load(Ordering::SeqCst) >= 10).await
+                }
+                _ if !has_dc => {
+                    // no m=application: media_flowing / renegotiating on top of "connected"
+                    let mut ok = wait_until(25_000, || connected(&a) && connected(&bs)).await;
+                    if ok && phase == "media_flowing" {
+                        let nwr = nw.as_ref().ok_or("no natwire")?;
+                        ok = wait_until(15_000, || nwr.st.lock().passed[0][3] >= 5).await;
+                    }
+                    ok
                 }
                 _ => {
                     // channels_open and everything built on it
@@ -1332,7 +1826,6 @@ async fn scenario(sc: &Value, rt_h: Handle, rt_a: Handle, rt_b: Handle) -> Resul
     }
 
     // ---------------- phase-specific extras on top of channels_open
-    let first_ev_side = sc["events"][0]["side"].as_str().unwrap_or("A").to_string();
     if phase == "renegotiating" {
         // the subject of the first event is in have-local-offer when the event lands
         let s = if first_ev_side == "B" { b.as_mut().ok_or("no B")? } else { &mut a };
@@ -1394,6 +1887,14 @@ async fn scenario(sc: &Value, rt_h: Handle, rt_a: Handle, rt_b: Handle) -> Resul
     });
     seen.push(("census_at_phase".into(), format!("{mode}/{phase}: A={}t/{}s B={}t/{}s", a.tasks(), a.socks_open(&now),
         b.as_ref().map(|s| s.tasks() as i64).unwrap_or(-1), b.as_ref().map(|s| s.socks_open(&now) as i64).unwrap_or(-1))));
+    if cfgv == "rtcpsplit" && phase != "created" && a.socks_open(&now) < 2 {
+        return Ok(json!({"status": "harness_error", "reason": format!("cfg rtcpsplit: side A holds {} socket(s), no separate RTCP socket", a.socks_open(&now))}));
+    }
+    if cfgv != "plain" || mediav != "dc" {
+        seen.push(("census_at_phase_variant".into(), format!("{mode}/{phase}{}: A={}t/{}s B={}t/{}s C={}t", variant_label(sc), a.tasks(), a.socks_open(&now),
+            b.as_ref().map(|s| s.tasks() as i64).unwrap_or(-1), b.as_ref().map(|s| s.socks_open(&now) as i64).unwrap_or(-1),
+            comp.as_ref().map(|c| c.tasks() as i64).unwrap_or(-1))));
+    }
     // which channels had reported Open before the event
     let open_a: Vec<bool> = (0..a.dcs.len()).map(|i| a.dc_count(i, "Open") > 0).collect();
     let open_b: Vec<bool> = b.as_ref().map(|s| (0..s.dcs.len()).map(|i| s.dc_count(i, "Open") > 0).collect()).unwrap_or_default();
@@ -1657,6 +2158,28 @@ async fn scenario(sc: &Value, rt_h: Handle, rt_a: Handle, rt_b: Handle) -> Resul
         }
     }
 
+    // ---------------- mux2: the port is still the companion's.  The subject's registration is
+    // gone (or leaked – its own clauses say which); a port released by the FIRST of two
+    // connections stops serving within one poll of the demux loop's shutdown flag, so that
+    // long is waited before the companion is probed (a pause, not a verdict), then one message
+    // each way must still get through (1×/3× rule on the scenario's bound) and the shared
+    // socket must still be open.
+    let mut comp_probe = Value::Null;
+    let mut comp_problem: Option<(String, String)> = None; // (key tail, what)
+    if let Some(cp) = comp.as_mut() {
+        tokio::time::sleep(Duration::from_millis(2 * SHARED_UDP_SHUTDOWN_POLL_MS)).await;
+        let kept = own_udp_sockets_on_port(cp.mux_port) == cp.mux_socks;
+        let (ok, ms) = cp.exchange(3 * bound).await?;
+        comp_probe = json!({"mux_socket_still_open": kept, "message_each_way": ok, "took_ms": ms, "tasks_c": cp.tasks()});
+        obs.insert("companion_probed_after_first_close".into(), json!(1));
+        if !kept {
+            comp_problem = Some(("released=shared_port".into(), format!("the shared mux socket was closed although a second connection is still registered on it: {comp_probe}")));
+        } else if !ok {
+            comp_problem = Some(("missing=companion_message".into(), format!("after the first of two connections on one mux port ended, the second no longer gets a data-channel message through ({} ms waited): {comp_probe}", 3 * bound)));
+        }
+        // (met, but later than the bound: inconclusive – decided with the other verdicts)
+    }
+
     // flap scenarios: was the history really "N recoveries, every outage inside ONE grace window,
     // nothing reported yet when the final outage began"?  (decided on the observed state log)
     let mut flap_problem: Option<String> = None;
@@ -1818,24 +2341,42 @@ async fn scenario(sc: &Value, rt_h: Handle, rt_a: Handle, rt_b: Handle) -> Resul
         s.source = None;
         s.dc_rx = None;
     }
+    // … the companion last: its close takes the shared port's reference count to zero
+    if let Some(cp) = comp.as_mut() {
+        for s in [&mut cp.c, &mut cp.d] {
+            if let Some(pc) = s.pc.clone() {
+                let _ = s.run(async move { pc.close() }).await;
+            }
+            s.abort_pending().await;
+            if let Some(pc) = s.pc.take() {
+                let _ = s.run(async move { drop(pc) }).await;
+            }
+            s.dc_rx = None;
+        }
+    }
     if let Some(n) = nw.as_mut() {
         n.shutdown().await;
     }
     let wire = nw.as_ref().map(|n| n.counters()).unwrap_or(Value::Null);
     drop(nw);
     let t_f0 = clock.ms();
+    // (a leak that stage 1 already established is reported there and the final census is only
+    // looked at for the witness: one bound is enough for that)
+    let leak_known = clauses.iter().any(|c| c.tag.starts_with("leak:") && c.required && c.met_at.is_none());
+    let final_limit = if leak_known { bound } else { 3 * bound };
     let mut final_met: Option<u64> = None;
     let mut final_detail = Value::Null;
     loop {
         let t = clock.ms().saturating_sub(t_f0);
         let extra: Vec<u64> = socket_inodes().difference(&base).cloned().collect();
         let (ta, tb) = (a.tasks(), b.as_ref().map(|s| s.tasks()).unwrap_or(0));
-        final_detail = json!({"tasks_a": ta, "tasks_b": tb, "extra_sockets": extra.len(), "t_ms": t});
-        if ta == 0 && tb == 0 && extra.is_empty() {
+        let tc = comp.as_ref().map(|c| c.tasks()).unwrap_or(0);
+        final_detail = json!({"tasks_a": ta, "tasks_b": tb, "tasks_companion": tc, "extra_sockets": extra.len(), "t_ms": t});
+        if ta == 0 && tb == 0 && tc == 0 && extra.is_empty() {
             final_met = Some(t);
             break;
         }
-        if t > 3 * bound {
+        if t > final_limit {
             break;
         }
         tokio::time::sleep(Duration::from_millis(50)).await;
@@ -1855,6 +2396,16 @@ async fn scenario(sc: &Value, rt_h: Handle, rt_a: Handle, rt_b: Handle) -> Resul
             let l: Vec<String> = d.log.lock().iter().map(|e| format!("{}@{}", e.1, e.0)).collect();
             chan_logs.insert(format!("{}{}", s.name, i), json!(l));
             d.collector.abort();
+        }
+    }
+    if let Some(cp) = comp.as_mut() {
+        for s in [&mut cp.c, &mut cp.d] {
+            for d in s.dcs.iter() {
+                d.collector.abort();
+            }
+            if let Some(h) = s.state_logger.take() {
+                h.abort();
+            }
         }
     }
     let mut state_logs = serde_json::Map::new();
@@ -1941,7 +2492,7 @@ async fn scenario(sc: &Value, rt_h: Handle, rt_a: Handle, rt_b: Handle) -> Resul
             _ => ("injector", evl.clone()),
         };
         let role = if s.name == "A" { "offerer" } else { "answerer" };
-        let ctx = format!("event={ev},phase={phase},mode={mode},observer={observer}");
+        let ctx = format!("event={ev},phase={phase},mode={mode}{vkey},observer={observer}");
         let tail = format!(
             "side {} ({role}) after {evl}; still so {} ms after the event (bound {} ms); state={state1} reason={reason1} tasks={} sockets={}",
             s.name, 3 * bound, bound,
@@ -1987,7 +2538,7 @@ async fn scenario(sc: &Value, rt_h: Handle, rt_a: Handle, rt_b: Handle) -> Resul
                 if healthy {
                     let evs = if events.len() == 1 { events[0]["ev"].as_str().unwrap_or("?").to_string() } else { evl.clone() };
                     let mut tags = vec![];
-                    if final_detail["tasks_a"].as_u64().unwrap_or(0) + final_detail["tasks_b"].as_u64().unwrap_or(0) > 0 {
+                    if final_detail["tasks_a"].as_u64().unwrap_or(0) + final_detail["tasks_b"].as_u64().unwrap_or(0) + final_detail["tasks_companion"].as_u64().unwrap_or(0) > 0 {
                         tags.push("tasks");
                     }
                     if final_detail["extra_sockets"].as_u64().unwrap_or(0) > 0 {
@@ -1995,7 +2546,7 @@ async fn scenario(sc: &Value, rt_h: Handle, rt_a: Handle, rt_b: Handle) -> Resul
                     }
                     let fail = tags.join("+");
                     findings.push(json!({
-                        "key": format!("event={evs},phase={phase},mode={mode},observer=final,leak={fail}"),
+                        "key": format!("event={evs},phase={phase},mode={mode}{vkey},observer=final,leak={fail}"),
                         "what": format!("after {evl} and after the harness closed and dropped every handle, {fail} remain {} ms later: {final_detail}", 3 * bound),
                         "detail": final_detail,
                     }));
@@ -2005,10 +2556,20 @@ async fn scenario(sc: &Value, rt_h: Handle, rt_a: Handle, rt_b: Handle) -> Resul
             }
         }
     }
+    if let Some((tail, what)) = comp_problem {
+        if healthy {
+            let evs = if events.len() == 1 { events[0]["ev"].as_str().unwrap_or("?").to_string() } else { evl.clone() };
+            findings.push(json!({"key": format!("event={evs},phase={phase},mode={mode}{vkey},observer=companion,{tail}"), "what": what, "detail": comp_probe}));
+        } else {
+            inconclusive.push(format!("companion probe failed but canary lagged {canary_lag} ms"));
+        }
+    } else if comp_probe["took_ms"].as_u64().unwrap_or(0) > bound {
+        inconclusive.push(format!("companion message arrived only after {} ms (bound {bound})", comp_probe["took_ms"]));
+    }
     if !panics.is_empty() {
         let loc = panics[0].split(' ').next().unwrap_or("?").to_string();
         findings.push(json!({
-            "key": format!("phase={phase},mode={mode},panic={loc}"),
+            "key": format!("phase={phase},mode={mode}{vkey},panic={loc}"),
             "what": format!("a task panicked during termination: {}", panics.join(" | ")),
             "detail": panics,
         }));
@@ -2034,7 +2595,8 @@ async fn scenario(sc: &Value, rt_h: Handle, rt_a: Handle, rt_b: Handle) -> Resul
         "inconclusive": inconclusive,
         "obs": Value::Object(obs),
         "seen": seen.iter().map(|(k, v)| json!([k, v])).collect::<Vec<_>>(),
-        "census": {"at_phase": census_phase, "after_event": census_stage1, "final": final_detail, "bound_ms": bound, "canary_max_lag_ms": canary_lag},
+        "census": {"at_phase": census_phase, "after_event": census_stage1, "companion_after_event": comp_probe, "final": final_detail, "bound_ms": bound,
+            "canary_max_lag_ms": canary_lag, "ports_block": ports.block, "wall_ms": clock.ms()},
         "clauses": cl,
         "wire": wire,
         "events": applied,
